@@ -294,10 +294,100 @@ func c09Get(c *fw.Ctx, s *c09Sys, ids [][2]uint64, cas c09Case, shape string) ([
 	return es, true
 }
 
+// (E) overlapping responses: controller A stops reading in the middle of a response that exceeds all socket
+// buffers (so the server is blocked inside A's response), controller B performs a complete request, then A reads on.
+// Flow control forces the interleaving; each controller must receive exactly the value it asked for.
+func c09Overlap(c *fw.Ctx) {
+	s, err := c09Build(c, 0)
+	if err != nil {
+		c.Infra("build: " + err.Error())
+		return
+	}
+	defer s.Close()
+	var strs []*c09Char
+	for _, cc := range s.chars {
+		if cc.Ch.Format == characteristic.FormatString && cc.Ch.IsReadable() {
+			strs = append(strs, cc)
+		}
+	}
+	if len(strs) < 2 {
+		c.Infra("not enough string characteristics")
+		return
+	}
+	kb, err := refctl.Dial(s.w.Addr)
+	if err != nil {
+		c.Infra(err.Error())
+		return
+	}
+	defer kb.Close()
+	kb.Timeout = 60 * time.Second
+	s.k.Timeout = 60 * time.Second
+	for _, k := range []*refctl.Ctl{kb, s.k} { // small receive buffers: the 12 MiB response cannot be absorbed by the kernel
+		if tc, ok := k.C.(*net.TCPConn); ok {
+			tc.SetReadBuffer(16 << 10)
+		}
+	}
+	if _, ec, err := refctl.PairVerify(kb, idL, refctl.Seed32("c09-b"), nil); err != nil || ec != 0 {
+		c.Infra("verify B failed")
+		return
+	}
+	for _, sz := range []int{5000, 6000, 12 << 20} {
+		for _, order := range []string{"A-blocked-B-complete", "B-blocked-A-complete"} {
+			c.Eval(1)
+			cas := c09Case{Kind: "overlap", Len: sz, IDs: order}
+			va, vb := strings.Repeat("A", sz), strings.Repeat("B", sz)
+			strs[0].Ch.UpdateValue(va)
+			strs[1].Ch.UpdateValue(vb)
+			first, second := s.k, kb
+			fi, si := 0, 1
+			if order == "B-blocked-A-complete" {
+				first, second = kb, s.k
+				fi, si = 1, 0
+			}
+			// first: send the request, read only the status line, then stop reading
+			if err := first.Send(refctl.BuildRequest("GET", fmt.Sprintf("/characteristics?id=%d.%d", strs[fi].Acc.ID, strs[fi].Ch.ID), "", nil)); err != nil {
+				c.Infra(err.Error())
+				return
+			}
+			if err := first.PeekResponseStart(); err != nil {
+				c.Report("overlap-failed/"+order, "no response start: "+err.Error(), cas)
+				return
+			}
+			// second: a complete request while the first response is unfinished
+			es, ok := c09Get(c, &c09Sys{k: second}, [][2]uint64{{strs[si].Acc.ID, strs[si].Ch.ID}}, cas, "overlap-inner")
+			want2, want1 := vb, va
+			if si == 0 {
+				want2, want1 = va, vb
+			}
+			if ok && !c09Same(es[0].Value, want2) {
+				c.Report("overlap-differs/inner/"+order, "the controller served during another controller's response received a wrong value", cas)
+			}
+			m, _, err := first.Await()
+			if err != nil || m.Status != 200 {
+				c.Report("overlap-failed/outer/"+order, fmt.Sprintf("the interrupted response does not complete: %v", err), cas)
+				return
+			}
+			es1, perr := c09ParseEntries(m.Body)
+			if perr != nil || len(es1) != 1 || !c09Same(es1[0].Value, want1) {
+				n := 0
+				if perr == nil && len(es1) == 1 {
+					if str, ok := es1[0].Value.(string); ok {
+						n = commonPrefix([]byte(str), []byte(want1))
+					}
+				}
+				c.Report("overlap-differs/outer/"+order, fmt.Sprintf("the controller whose %d-byte response was interleaved with another controller's request received a damaged value (first %d bytes correct)", sz, n), cas)
+			}
+			c.Class(fmt.Sprintf("overlap:%s:%dKiB", order, sz/1024))
+		}
+	}
+}
+
 func c09Run(c *fw.Ctx) {
 	switch {
-	case c.Shard < 12:
-		c09Values1(c, c.Shard, 12)
+	case c.Shard == 11:
+		c09Overlap(c)
+	case c.Shard < 11:
+		c09Values1(c, c.Shard, 11)
 	case c.Shard == 12:
 		c09Shapes(c)
 	case c.Shard == 13:
@@ -396,6 +486,23 @@ func c09Values1(c *fw.Ctx, part, parts int) {
 					}
 					if !reflect.DeepEqual(got, want) {
 						c.Report("controller-write-getter-differs/"+sig, fmt.Sprintf("%s: controller wrote %s, the application's getter returns %v", cc.Name, trunc(jv, 60), trunc([]byte(fmt.Sprint(got)), 60)), cas)
+						continue
+					}
+				}
+				if ch.IsReadable() {
+					// what the controller wrote is what a controller then reads, by id and in /accessories
+					es, ok := c09Get(c, s, [][2]uint64{{cc.Acc.ID, ch.ID}}, cas, "single-after-write")
+					if ok && !c09Same(es[0].Value, v.V) {
+						c.Report("controller-write-read-differs/single/"+sig, fmt.Sprintf("%s: controller wrote %s, GET /characteristics then returns %v", cc.Name, trunc(jv, 60), trunc([]byte(fmt.Sprint(es[0].Value)), 60)), cas)
+						continue
+					}
+					m, _, err := s.k.Do("GET", "/accessories", "", nil)
+					if err != nil || m.Status != 200 {
+						c.Report("accessories-failed/"+sig, fmt.Sprintf("GET /accessories fails after a write to %s: %v", cc.Name, err), cas)
+						continue
+					}
+					if got, found := c09FindInDB(m.Body, cc.Acc.ID, ch.ID); !found || !c09Same(got, v.V) {
+						c.Report("controller-write-read-differs/accessories/"+sig, fmt.Sprintf("%s: controller wrote %s, /accessories then shows %v", cc.Name, trunc(jv, 60), trunc([]byte(fmt.Sprint(got)), 60)), cas)
 						continue
 					}
 				}
@@ -590,7 +697,7 @@ func init() {
 	fw.Register(&fw.Check{
 		ID:     "C09",
 		Level:  "exploration",
-		Rule:   "real transport over TCP with a verified independent controller; accessories assembled from EVERY characteristic constructor found in /repo. (A) every constructor × the boundary alphabet of its format inside its bounds (min, min+step, mid, max−step, max; booleans; strings: empty, ASCII, quotes/backslashes, HTML characters, non-BMP runes, control characters, 1 KiB, 3000 bytes; base64 payloads of 0/1/300/5000 bytes): application-set value read by single id, in an id list and in /accessories; controller-written value compared with the typed getter and the remote-update callback. (B) id-list shapes [e] [ne] [e,ne] [ne,e] [e,e] [e1,e2,e3] [50 ids] [write-only] …: each id answered once, in order, with a value or a non-zero status, multi-status ⇒ every entry has a status. (C) response body length sweep: every string length 0..4200 (quick) / 0..9000 (thorough), walking every residue of the 2048-byte chunker, net/http's 4096-byte writer and the 1024-byte frame. (D) databases of 8, 9, 17, 57 (thorough 157) accessories. distinct_nontrivial = distinct (operation, format / shape / frame count) classes",
+		Rule:   "real transport over TCP with a verified independent controller; accessories assembled from EVERY characteristic constructor found in /repo. (A) every constructor × the boundary alphabet of its format inside its bounds (min, min+step, mid, max−step, max; booleans; strings: empty, ASCII, quotes/backslashes, HTML characters, non-BMP runes, control characters, 1 KiB, 3000 bytes; base64 payloads of 0/1/300/5000 bytes): application-set value read by single id, in an id list and in /accessories; controller-written value compared with the typed getter and the remote-update callback. (B) id-list shapes [e] [ne] [e,ne] [ne,e] [e,e] [e1,e2,e3] [50 ids] [write-only] …: each id answered once, in order, with a value or a non-zero status, multi-status ⇒ every entry has a status. (C) response body length sweep: every string length 0..4200 (quick) / 0..9000 (thorough), walking every residue of the 2048-byte chunker, net/http's 4096-byte writer and the 1024-byte frame. (D) databases of 8, 9, 17, 57 (thorough 157) accessories. (E) overlapping responses of two verified controllers, the interleaving forced by flow control (one stops reading inside a response of 5000 / 6000 bytes / 12 MiB while the other completes a request), both orders. After every controller write the value is read back by id and in /accessories. distinct_nontrivial = distinct (operation, format / shape / frame count) classes",
 		Shards: func(string) int { return 16 },
 		Run:    c09Run,
 		Replay: func(c *fw.Ctx, raw json.RawMessage) {
@@ -603,6 +710,8 @@ func init() {
 				c09Sweep(c, cas.Len%2)
 			case "database":
 				c09Databases(c)
+			case "overlap":
+				c09Overlap(c)
 			default:
 				c09Values1(c, 0, 1)
 			}
